@@ -318,6 +318,10 @@ class Session:
                 except Exception:
                     pass
             srcs.append(sorted(s))
+        if op == "solve_legacy":
+            # the older driver clips the MAIN step onto the save times: a result IS a trajectory point (same time, same bits)
+            pts = [(tn, bn) for (tn, bn, _, _) in raw["traj"]] + [(raw["tfin"], raw["bfin"])]
+            srcs = [sorted(n + 1 for n, (tn, bn) in enumerate(pts) if tn == tr and bn == br) for (tr, itr, br) in raw["res"]]
         raw["srcs"] = srcs
         # monitors
         raw["_mon_call"] = monitors
@@ -347,6 +351,9 @@ class Session:
             mons.append((mv.get("frequency", 10), its, tms, vls, mv.get("type", name)))
         raw["mons"] = mons
         raw["freqs_arg"] = sorted(int(m[0]) for m in mons) if not raw.get("freqs_arg") else raw["freqs_arg"]
+
+
+OPNAME = {"solve_legacy": "legacy"}       # code method -> operation name in Driver.tla
 
 
 def changing_cfl_calls():
@@ -410,7 +417,7 @@ def project(raws, rid):
         if r["op"] == "restart":
             mon = [m for m in mon if m["it"] >= itstart]
         calls.append(dict(
-            op=r["op"], t0=R(r["t0"]), it0=int(r["it0"]), tsave=[R(t) for t in r["tsave"]],
+            op=OPNAME.get(r["op"], r["op"]), t0=R(r["t0"]), it0=int(r["it0"]), tsave=[R(t) for t in r["tsave"]],
             tot=R(r["tot"]) if r["tot"] is not None else -1,
             maxit=int(r["maxit"]) if r["maxit"] is not None else -1,
             freqs=sorted(set(freqs)), nit=int(r["nit"]), totnit=int(r["totnit"]), itstart=int(itstart),
@@ -473,7 +480,7 @@ def trace_of(raws, froms, kind, prof, t0, tid):
     for r, frm in zip(raws, froms):
         if id0 is None:
             id0 = ids(r["b0"]) if frm == "f0" else None
-        events.append(dict(e="call", op=r["op"], **{"from": frm}, tsave=[L(t) for t in r["tsave"]],
+        events.append(dict(e="call", op=OPNAME.get(r["op"], r["op"]), **{"from": frm}, tsave=[L(t) for t in r["tsave"]],
                            tot=L(r["tot"]) if r["tot"] is not None else -1,
                            maxit=int(r["maxit"]) if r["maxit"] is not None else -1,
                            freqs=r["freqs_arg"], id=ids(r["b0"]), t=L(r["t0"]), it=int(r["it0"]),
